@@ -184,10 +184,23 @@ func (c cellSpec) line() string {
 		s += " src=uris"
 	}
 	if c.yaml {
-		s += " via=yaml"
+		// round 4: a third of the registry cells goes through the generic plugin type `http` + `decoder: <kind>`
+		if (len(c.tags)+c.limit+c.passes+c.layout+len(c.cases))%3 == 0 {
+			s += " via=http"
+		} else {
+			s += " via=yaml"
+		}
 	}
 	if c.pre {
 		s += " pre=1"
+	}
+	// round 4: a fifth of the cells has one or two middlewares (c14cell.Cell.MW)
+	if h := len(c.tags) + 3*c.limit + 2*c.passes + c.layout + 2*len(c.cases) + len(c.ch); h%5 == 2 {
+		s += fmt.Sprintf(" mw=%d", 1+h/5%2)
+	}
+	// round 4: a quarter of the cells is consumed the way two instances consume one provider (c14cell.Cell.Hold)
+	if (len(c.tags)+2*c.limit+3*c.passes+c.layout+len(c.cases)+len(c.fh))%4 == 1 {
+		s += " hold=1"
 	}
 	if len(c.fh) > 0 {
 		ps := make([]string, len(c.fh))
@@ -752,8 +765,8 @@ func cellOf(input string, preload bool) c14cell.Cell {
 	c := c14cell.Cell{
 		Kind: kv["fmt"], Preload: preload, Limit: u64(kv["limit"]), Passes: u64(kv["passes"]),
 		Tags: listOf(kv["tags"]), Chosen: listOf(kv["cases"]), Cap: atoi(kv["cap"]), Layout: atoi(kv["junk"]),
-		Uris: kv["src"] == "uris", YAML: kv["via"] == "yaml", FH: parseFH(kv["fh"]), CH: parseCH(kv["ch"]),
-		Pre: kv["pre"] == "1", CloseFail: kv["cf"] == "1", Pad: atoi(kv["pad"]), Both: kv["src"] == "both",
+		Uris: kv["src"] == "uris", YAML: kv["via"] == "yaml" || kv["via"] == "http", Generic: kv["via"] == "http", FH: parseFH(kv["fh"]), CH: parseCH(kv["ch"]),
+		Pre: kv["pre"] == "1", Hold: kv["hold"] == "1", MW: atoi(kv["mw"]), CloseFail: kv["cf"] == "1", Pad: atoi(kv["pad"]), Both: kv["src"] == "both",
 	}
 	if kv["big"] != "" {
 		c.Big = map[int]int{}
